@@ -38,11 +38,23 @@ def _func(relpath, name):
 class _Exits(ast.NodeTransformer):
     """inside the loop body: `if cond: return value` -> `__exits__.append((cond, value))` (cond with symbolic and/or/not)"""
     def visit_If(s, node):
-        if node.orelse or len(node.body) != 1 or not isinstance(node.body[0], ast.Return):
-            raise shim.TraceError('intersect_parametric: an `if` in the loop that is not `if cond: return value`')
+        if node.orelse or len(node.body) != 1 or not isinstance(node.body[0], (ast.Return, ast.Break)):
+            raise shim.TraceError('intersect_parametric: an `if` in the loop that is not `if cond: return value` / `if cond: break`')
         cond = _SymBool().visit(node.test)
-        val = node.body[0].value if node.body[0].value is not None else ast.Constant(None)
+        if isinstance(node.body[0], ast.Break):
+            val = ast.Constant('__break__')          # leaves the loop: the result is what the epilogue returns
+        else:
+            val = node.body[0].value if node.body[0].value is not None else ast.Constant(None)
         return ast.Expr(ast.Call(ast.Attribute(ast.Name('__exits__', ast.Load()), 'append', ast.Load()), [ast.Tuple([cond, val], ast.Load())], []))
+
+
+def _assigned_names(stmts):
+    out = []
+    for st in stmts:
+        for n in ast.walk(st):
+            if isinstance(n, ast.Name) and isinstance(n.ctx, ast.Store) and n.id not in out:
+                out.append(n.id)
+    return out
 
 
 def _targets(stmts):
@@ -97,13 +109,17 @@ class ParametricCut:
         loops = [st for st in body if isinstance(st, (ast.While, ast.For))]
         inner = [n for st in body for n in ast.walk(st)]
         if len(loops) != 1 or loops[0].orelse \
-                or any(isinstance(n, (ast.Break, ast.Continue, ast.Try, ast.With, ast.Raise, ast.Yield, ast.FunctionDef, ast.Lambda)) for n in inner) \
+                or any(isinstance(n, (ast.Continue, ast.Try, ast.With, ast.Raise, ast.Yield, ast.FunctionDef, ast.Lambda)) for n in inner) \
                 or any(isinstance(n, (ast.While, ast.For)) and n is not loops[0] for n in inner):
             raise shim.TraceError('intersect_parametric: expected init; one loop; epilogue')
         w = loops[0]
+        breaks = [n for n in inner if isinstance(n, ast.Break)]
+        last = w.body[-1]
+        if breaks and not (len(breaks) == 1 and isinstance(last, ast.If) and not last.orelse and len(last.body) == 1 and last.body[0] is breaks[0]):
+            raise shim.TraceError('intersect_parametric: a break that is not `if cond: break` at the end of the loop body')
         k = body.index(w)
         self.pre, self.post = list(body[:k]), body[k + 1:]
-        self.test, self.body = self._normalise(w, self.pre)
+        self.test, self.body = self._normalise(w, self.pre, self.namespace())
         # the result is either returned after the loop (`return <distance>, normal`) or from inside it (`if converged: return ...`)
         self.ret_dist = None
         if self.post:
@@ -120,7 +136,7 @@ class ParametricCut:
         self.roles = None
 
     @staticmethod
-    def _normalise(loop, pre):
+    def _normalise(loop, pre, ns):
         """(loop condition, statements of a pass) for `while c: ...` and for `for i in itertools.count(1): ...` (an unbounded
         counter: the explicit counter `__count` starts at 0, is incremented at the start of every pass and copied into the
         loop variable; the loop condition is `True`, the loop is left by the returns inside it).  Any other iterable fails
@@ -128,9 +144,14 @@ class ParametricCut:
         if isinstance(loop, ast.While):
             return loop.test, list(loop.body)
         it = loop.iter
-        is_count = isinstance(it, ast.Call) and not it.keywords and len(it.args) <= 1 and (
-            (isinstance(it.func, ast.Attribute) and it.func.attr == 'count' and isinstance(it.func.value, ast.Name) and it.func.value.id == 'itertools')
-            or (isinstance(it.func, ast.Name) and it.func.id == 'count'))
+        import itertools
+        is_count = False
+        if isinstance(it, ast.Call) and not it.keywords and len(it.args) <= 1:
+            try:                                         # whatever name the module imports it under
+                e = ast.Expression(it.func); ast.fix_missing_locations(e)
+                is_count = eval(compile(e, '<iter>', 'eval'), dict(ns, itertools=itertools)) is itertools.count
+            except Exception:
+                is_count = False
         if not is_count or not isinstance(loop.target, ast.Name):
             raise shim.TraceError('intersect_parametric: a for loop that does not run over itertools.count(start)')
         try:
@@ -201,33 +222,52 @@ class ParametricCut:
         return isinstance(x, (int, float)) and not isinstance(x, bool)
 
     def _slots(self, ns):
-        """[(name, index or None, initial value)] for every numeric local the loop body assigns"""
+        """[(name, path, initial value)] for every numeric piece of state the prologue leaves behind or the loop body assigns:
+        a number, an entry of a list of numbers, or either of these in an attribute of a local object (state kept in an
+        instance of a private class); path = sequence of ('idx', i) / ('attr', name)"""
+        import types, functools, numpy
+        def numeric_parts(v, path):
+            if self._isnum(v): return [(path, v)]
+            if isinstance(v, list) and v and all(self._isnum(x) for x in v):
+                return [(path + (('idx', i),), x) for i, x in enumerate(v)]
+            return []
         out = []
-        for n in self.assigned:
+        for n in dict.fromkeys(_assigned_names(self.pre) + self.assigned):
             if n not in ns: continue
             v = ns[n]
-            if self._isnum(v): out.append((n, None, v))
-            elif isinstance(v, (list, tuple)) and v and all(self._isnum(x) for x in v):
-                if not isinstance(v, list):
-                    raise shim.TraceError('intersect_parametric: loop state %s is an immutable tuple of numbers' % n)
-                out += [(n, i, x) for i, x in enumerate(v)]
+            parts = numeric_parts(v, ())
+            if not parts and not isinstance(v, (shim.T, numpy.ndarray, types.FunctionType, types.BuiltinFunctionType, types.ModuleType, functools.partial,
+                                                type, str, bytes, tuple, list, dict, set, bool, shim.E, shim.B)) and v is not None:
+                attrs = list(getattr(type(v), '__slots__', ())) or list(getattr(v, '__dict__', {}))
+                for a in attrs:
+                    try: av = getattr(v, a)
+                    except Exception: continue
+                    parts += numeric_parts(av, (('attr', a),))
+            out += [(n, path, x) for path, x in parts]
         return out
 
     @staticmethod
     def _put(ns, slot, val):
-        n, i, _ = slot
-        if i is None: ns[n] = val
-        else:
-            ns[n] = list(ns[n]); ns[n][i] = val
+        n, path, _ = slot
+        if not path:
+            ns[n] = val; return
+        obj = ns[n]
+        for kind, key in path[:-1]:
+            obj = getattr(obj, key) if kind == 'attr' else obj[key]
+        kind, key = path[-1]
+        if kind == 'attr': setattr(obj, key, val)
+        else: obj[key] = val
 
     @staticmethod
     def _get(ns, slot):
-        n, i, _ = slot
+        n, path, _ = slot
         v = ns[n]
-        if i is None: return v
-        if not isinstance(v, (list, tuple)) or len(v) <= i:
+        try:
+            for kind, key in path:
+                v = getattr(v, key) if kind == 'attr' else v[key]
+        except Exception:
             raise shim.TraceError('intersect_parametric: loop state %s changed its layout inside the loop' % n)
-        return v[i]
+        return v
 
     def _pass(self, ns):
         ns['__exits__'] = []
@@ -272,7 +312,7 @@ class ParametricCut:
         cnt = only([k for k in range(len(slots)) if k not in (d1, d0) and close(new[k], old[k] + 1) and slots[k][2] == 0 and isinstance(slots[k][2], int)], 'the counter')
         fv = set(shim.free_vars(shim.E.lift(_row(self._get(ns, slots[d1]), 0, 1)))) - {'e1', 'c%d' % d1, 'c%d' % d0}
         e0 = only([k for k in range(len(slots)) if 'c%d' % k in fv], 'the previous error')
-        rest = [k for k in range(len(slots)) if k not in (d1, d0, cnt, e0)]
+        rest = [k for k in range(len(slots)) if k not in (d1, d0, cnt, e0) and not close(new[k], old[k])]      # unchanged = a constant, not state
         for k in [e0] + rest:
             if not close(new[k], env['e1']):
                 raise shim.TraceError('intersect_parametric: loop state %s[%s] does not receive the new error' % (slots[k][0], slots[k][1]))
@@ -280,7 +320,7 @@ class ParametricCut:
             raise shim.TraceError('intersect_parametric: more loop state than two distances, two errors and a counter: %s' % [(slots[k][0], slots[k][1]) for k in rest])
         self.roles = {'d0': d0, 'd1': d1, 'e0': e0, 'iter_no': cnt}
         if rest: self.roles['e1_old'] = rest[0]
-        self.role_names = {r: '%s%s' % (slots[k][0], '' if slots[k][1] is None else '[%d]' % slots[k][1]) for r, k in self.roles.items()}
+        self.role_names = {r: slots[k][0] + ''.join(('.%s' % key if kind == 'attr' else '[%d]' % key) for kind, key in slots[k][1]) for r, k in self.roles.items()}
         self.init = {r: slots[k][2] for r, k in self.roles.items()}
         self.first_pass_unconditional = True
 
@@ -304,6 +344,8 @@ class ParametricCut:
                 if success is not None:
                     raise shim.TraceError('intersect_parametric: a flag exit after the exit that returns the result')
                 flags.append(cond)
+            elif val == '__break__' and success is None and self.ret_dist is not None:
+                success = (cond, None)                    # the result is the epilogue's return on the state at the end of this pass
             elif isinstance(val, tuple) and len(val) == 2 and success is None:
                 success = (cond, val[0])
             else:
@@ -314,7 +356,7 @@ class ParametricCut:
             sc = success[0] if not hasattr(success[0], 'shape') else _row(success[0], 0, 1)
             cont = b_and(cont, b_not(shim.B.lift(sc)))
             ret = success[1]
-        else:
+        if success is None or ret is None:
             if self.ret_dist is None:
                 raise shim.TraceError('intersect_parametric: no result is returned, neither after the loop nor from inside it')
             self._exec(self.post[:-1], ns)
